@@ -85,7 +85,7 @@ class Obs:
 
 
 class Universe:
-    def __init__(self, case, observers=(), actuator=True, frames=None, price_frame=None):
+    def __init__(self, case, observers=(), actuator=True, frames=None, price_frame=None, attach=True):
         from demeter import Actuator, Broker, MarketInfo, MarketTypeEnum, TokenInfo
 
         self.case = case
@@ -98,6 +98,7 @@ class Universe:
         self.m = {}
         self.frames = {}
         self.names = {}
+        self.attach = attach
         self.actuator = Actuator() if actuator else None
         self.broker = self.actuator.broker if actuator else Broker(record_action_callback=self._static_action)
         self.static_actions = []
@@ -112,8 +113,9 @@ class Universe:
             self.price_frame = price_frame
         else:
             self._build_prices()
-        for t, a in case["wallet"].items():
-            self.broker.set_balance(self.tok[t], D(a))
+        if attach:
+            for t, a in case["wallet"].items():
+                self.broker.set_balance(self.tok[t], D(a))
         for o in self.obs:
             o.on_built(self)
         if actuator:
@@ -211,7 +213,8 @@ class Universe:
     def _add(self, key, market):
         self.m[key] = market
         self.frames[key] = market.data  # the supplied frame object (a resampling run replaces market.data, not this)
-        self.broker.add_market(market)
+        if self.attach:
+            self.broker.add_market(market)
 
     def _uni_ticks(self, pool, noise):
         """ticks following the ETH path: token1/token0 atomic price"""
@@ -757,3 +760,42 @@ def ref_value(u: Universe, bar, raw):
     net = asset + sum(per.values(), F(0))
     tol += abs(asset) / 10**25
     return net, asset, per, tol
+
+
+# ---------------------------------------------------------------------------------------------- backtest manager (C19)
+class View:
+    """what run_op / raw_state need, reconstructed from a strategy's own broker (the Actuator is created by the manager)"""
+
+    def __init__(self, case, broker):
+        from demeter import TokenInfo
+
+        self.case = case
+        self.broker = broker
+        self.tok = {n: TokenInfo(n, d) for n, d in DECS.items()}
+        self.m = {mi.name: mk for mi, mk in broker.markets.items()}
+        self.prices = None
+        self.bar = -1
+        self.start, self.n, self.k = case["start"], case["n"], case["k"]
+
+    opt_names = Universe.opt_names
+
+
+def managed_script(case, prog, out_path, sid):
+    """a picklable scripted strategy that writes its result from finalize()"""
+    from vf._managed import ManagedScript
+
+    return ManagedScript(case, prog, out_path, sid)
+
+
+def manager_inputs(case):
+    """(StrategyConfig, BacktestData, BacktestConfig) with fresh, unattached market objects"""
+    from demeter import BacktestConfig, BacktestData, StrategyConfig
+    from demeter._typing import USD
+
+    u = Universe(case, actuator=False, attach=False)
+    markets = list(u.m.values())
+    data = BacktestData({m.market_info: u.frames[key] for key, m in u.m.items()}, (u.price_frame, USD if case["quote"] == "USD" else u.tok[case["quote"]]))
+    for m in markets:
+        pass
+    cfg = StrategyConfig({u.tok[t]: D(a) for t, a in case["wallet"].items()}, markets)
+    return cfg, data, BacktestConfig(print_actions=False, print_result=False, interval=f"{case['k']}min")
